@@ -257,8 +257,11 @@ PROPS = {
                       "/usr/share/zoneinfo (types, 64-bit transition table, footer text); the Lean model parses the footer and "
                       "answers offset and local-time queries, compared with FsTzdbProvider at every listed transition (-1 day .. +1 "
                       "day, the second itself, +-1 s), before the first transition, years 1..9999, around the rule-based transitions "
-                      "of 2038..9998, the local images of those instants, warm-vs-fresh provider, and check_identifier on every name "
-                      "in mixed case plus non-names.",
+                      "of 2038..9998 (located to the second by bisecting the provider's own daily offsets, then probed at that second "
+                      "and its neighbours), instants with a sub-second part next to transitions (also before 1970, where floor and "
+                      "truncation differ), the local images of those instants, warm-vs-fresh provider, histories of 40-130 distinct "
+                      "zones on one provider re-queried against fresh providers, and check_identifier on every name in mixed case "
+                      "plus non-names.",
         "level_note": "Trusted: Lean kernel (+propext, Classical.choice, Quot.sound); the harness's TZif reader and the model's "
                       "POSIX-TZ parser (two independent readers against the crate's tzif/combine parsers); Spec/Gregorian.lean for "
                       "dates; 'IANA names' = the TZif files of the zoneinfo tree minus localtime, posixrules, Factory. Leap-second "
@@ -306,7 +309,9 @@ PROPS = {
                       "the plain Mutex before the fix, for the record). Tie: 2-16 real threads released by a barrier issue mixed "
                       "convenience calls over 16 zones, each result compared with the *_with_provider twin on a fresh provider; "
                       "histories with an unknown zone, an out-of-range value and a panic injected while the provider lock is held "
-                      "(verif_hooks::panic_holding_tz_provider), followed by ordinary calls; the whole suite runs under a watchdog "
+                      "(verif_hooks::panic_holding_tz_provider), followed by ordinary calls; histories in which 40-140 distinct zones "
+                      "pass through the shared provider from four threads and are then queried again (the cache holds them all; "
+                      "each answer compared with a fresh provider); the whole suite runs under a watchdog "
                       "(a deadlock shows as `timeout`).",
         "level_note": "Trusted: Lean kernel (+propext, Classical.choice, Quot.sound); the state-machine abstraction: atomicity of a "
                       "call under std::sync::Mutex and the absence of data races are Rust's guarantees (the provider is !Sync and "
